@@ -268,8 +268,8 @@ class Analysis:
                     out.ret.add((self.on_return(st2, s), s))
             return out
         if isinstance(s, ast.Raise):
-            tag = self.raise_tag(s)
             for st in states:
+                tag = self.raise_tag_in(s, st)
                 for st2 in self.simple(st, s):
                     out.exc.add((st2, tag, s))
             return out
@@ -406,6 +406,10 @@ class Analysis:
         return res
 
     # ------------------------------------------------------------------ exceptions
+    def raise_tag_in(self, s: ast.Raise, state) -> str:
+        """Class raised by `s` in `state` (default: read off the statement alone)."""
+        return self.raise_tag(s)
+
     def raise_tag(self, s: ast.Raise) -> str:
         if s.exc is None:
             return RERAISE
